@@ -201,8 +201,8 @@ func checkB1(c *Ctx, pr *prioRoles) {
 				continue // classified above and by B9 / B11
 			}
 			if call, ok := w.In.(*ssa.Call); ok {
-				if bi, ok := call.Call.Value.(*ssa.Builtin); ok && (bi.Name() == "delete" || bi.Name() == "clear") {
-					continue // B11
+				if bi, ok := call.Call.Value.(*ssa.Builtin); ok && (bi.Name() == "delete" || bi.Name() == "clear") && pr.v1 {
+					continue // B11 (v1: entries of removed inputs; v2 has no removal: nothing is ever deleted)
 				}
 			}
 			for _, root := range ai.Roots(w.Target) {
@@ -679,6 +679,14 @@ func checkB7(c *Ctx, pr *prioRoles) {
 	if before == nil || after == nil {
 		problems = append(problems, "the total of the distribution is not taken both before and after the divider call")
 	} else {
+		// a divider that returns its distribution (v1) is judged by what it returned: the total
+		// after the call is taken of the call's result, not of the map handed in (a divider may
+		// build and return another map)
+		if div.Call.Signature().Results().Len() == 1 {
+			if arg := stripChangeType(after.Call.Args[0]); arg != ssa.Value(div) {
+				problems = append(problems, "the total after the division is taken of the map handed to the divider, not of the map the divider returned: a faulty division returned in a new map is not noticed")
+			}
+		}
 		if p.Callee(before) != p.Callee(after) {
 			problems = append(problems, "different helpers sum the distribution before and after")
 		}
